@@ -8,6 +8,8 @@
 //   binary S:ctx S:dt S:op I:den A:lhs A:rhs [S:col]       (col: lhs is column-major)
 //   outer  S:ctx S:dt S:op I:den A:lhs A:rhs
 //   reduce S:ctx S:dt S:op I:den A:x  N|I:axis  S:kT|kF|kt|kf  N|I:initial
+//   unaryx  S:ctx S:dt S:op L:shape S:<hex,hex,...>                          (adversarial values: every element is the
+//   binaryx S:ctx S:dt S:op L:lshape S:<hex,...> L:rshape S:<hex,...>         bit pattern of a double, cast to the dtype)
 // element = integer/den (den a power of two), 900001 -> -0.0, 900002 -> +inf, 900003 -> -inf, 900004 -> NaN
 // result: "ok <shape> ; <hex bit patterns>" (NaN printed as "nan").
 #ifndef C12_CTX
@@ -128,6 +130,51 @@ static array_t mk(const Arg& a, ll den) {
     return r;
 }
 
+// array from a shape list and a comma separated list of 64-bit hex patterns (doubles), row-major
+template <typename array_t>
+static array_t mkx(const Arg& shape, const Arg& hex) {
+    using T = typename array_t::value_type;
+    array_t r;
+    std::vector<size_t> shp(shape.list.begin(), shape.list.end());
+    r.resize(shp);
+    std::vector<double> vals;
+    { std::string body = hex.raw.substr(2); size_t p = 0;
+      while (p < body.size()) { size_t q = body.find(',', p); if (q == std::string::npos) q = body.size();
+          uint64_t u = std::stoull(body.substr(p, q - p), nullptr, 16); double d; std::memcpy(&d, &u, 8); vals.push_back(d); p = q + 1; } }
+    std::vector<size_t> idx(shp.size(), 0);
+    size_t n = 1; for (auto e : shp) n *= e;
+    for (size_t c = 0; c < n; c++) {
+        r(idx) = (T)(c < vals.size() ? vals[c] : 0.0);
+        for (int d = (int)shp.size() - 1; d >= 0; d--) { if (++idx[d] < shp[d]) break; idx[d] = 0; }
+    }
+    return r;
+}
+
+template <typename T>
+static std::string unaryx(const Case& c) {
+    const std::string op = c.args[2].raw.substr(2);
+    auto x = mkx<dyn_t<T>>(c.args[3], c.args[4]);
+    if (op == "sqrt") return showbits(CALL(na::sqrt, x));
+    if (op == "ceil") return showbits(CALL(na::ceil, x));
+    if (op == "floor") return showbits(CALL(na::floor, x));
+    if (op == "relu") return showbits(CALL(na::relu, x));
+    if (op == "relu6") return showbits(CALL(na::relu6, x));
+    return "unsupported";
+}
+
+template <typename T>
+static std::string binaryx(const Case& c) {
+    if (c.args.size() < 7) return "unsupported";
+    const std::string op = c.args[2].raw.substr(2);
+    auto l = mkx<dyn_t<T>>(c.args[3], c.args[4]);
+    auto r = mkx<dyn_t<T>>(c.args[5], c.args[6]);
+    if (op == "add") return showbits(CALL(na::add, l, r));
+    if (op == "subtract") return showbits(CALL(na::subtract, l, r));
+    if (op == "multiply") return showbits(CALL(na::multiply, l, r));
+    if (op == "divide") return showbits(CALL(na::divide, l, r));
+    return "unsupported";
+}
+
 template <typename T>
 static std::string unary(const Case& c) {
     const std::string op = c.args[2].raw.substr(2);
@@ -227,6 +274,8 @@ static std::string handle(const Case& c) {
     const std::string dt = c.args[1].raw.substr(2);
     auto go = [&](auto tag) -> std::string {
         using T = decltype(tag);
+        if (c.op == "unaryx") return unaryx<T>(c);
+        if (c.op == "binaryx") return binaryx<T>(c);
         if (c.op == "unary") return unary<T>(c);
         if (c.op == "binary") return binary<T>(c);
         if (c.op == "outer") return outer<T>(c);
